@@ -49,7 +49,21 @@ pub struct Finding {
   pub property: String,
   pub status: String, // "known" | "fixed"
   pub signature: String,
+  /// optional: regular expression that the whole signature must match (anchored by the entry itself)
+  pub signature_regex: Option<regex::Regex>,
   pub what: String,
+}
+
+impl Finding {
+  pub fn matches(&self, sig: &str) -> bool {
+    if !self.signature.is_empty() && self.signature == sig {
+      return true;
+    }
+    match &self.signature_regex {
+      Some(r) => r.is_match(sig),
+      None => false,
+    }
+  }
 }
 
 pub fn load_findings() -> Vec<Finding> {
@@ -66,6 +80,7 @@ pub fn load_findings() -> Vec<Finding> {
       property: f["property"].as_str().unwrap_or("").to_string(),
       status: f["status"].as_str().unwrap_or("known").to_string(),
       signature: f["signature"].as_str().unwrap_or("").to_string(),
+      signature_regex: f["signature_regex"].as_str().map(|r| regex::Regex::new(&format!("^(?:{})$", r)).expect("bad signature_regex in known_findings.json")),
       what: f["what"].as_str().unwrap_or("").to_string(),
     });
   }
@@ -312,7 +327,7 @@ impl Ctx {
       eprintln!("REPORT {} {}", signature, detail);
     }
     for f in &self.findings {
-      if f.property == self.prop && f.status == "known" && f.signature == signature {
+      if f.property == self.prop && f.status == "known" && f.matches(signature) {
         *self.sum.known_hits.entry(f.id.clone()).or_insert(0) += 1;
         return;
       }
@@ -704,6 +719,7 @@ pub fn finish(
   let findings = load_findings();
   // crashes: events of the property only when it says so; otherwise recorded as skipped
   let mut ctx = Ctx::new(def.id, o.seed, o.tier);
+  let sites = if def.crash_is_event { overflow_sites(def, o, &crashes) } else { BTreeMap::new() };
   for c in &crashes {
     *sum.counters.entry("cases_crashed".into()).or_insert(0) += 1;
     if def.crash_is_event {
@@ -714,9 +730,26 @@ pub fn finish(
           .push(format!("wall-clock watchdog fired on case {}", c["case"]));
         continue;
       }
-      let sig = format!("{}:{}", kind, c["call"].as_str().unwrap_or(""));
+      let call = c["call"].as_str().unwrap_or("").split('\t').next().unwrap_or("");
+      let entry = call.split('/').next().unwrap_or("");
+      let mut c = c.clone();
+      let sig = if kind == "stack-overflow" {
+        // identify the call site: the set of crate functions that recurse at the top of the dead stack
+        let site = sites
+          .get(&c["case"].as_u64().unwrap_or(u64::MAX))
+          .cloned()
+          .unwrap_or_else(|| "site-unknown".to_string());
+        c["site"] = json!(site);
+        // schemas with an unguarded reference cycle carry their class (computed by the
+        // harness from the rule graph) so that findings about them cannot hide an
+        // overflow on an acyclic or guarded-recursive schema
+        let cls = call.splitn(2, '/').nth(1).filter(|c| c.starts_with("cyclic-alias")).unwrap_or("-");
+        format!("{}:{}:{}:{}", kind, entry, cls, site)
+      } else {
+        format!("{}:{}", kind, call)
+      };
       ctx.idx = c["case"].as_u64().unwrap_or(0);
-      ctx.report(&sig, c.clone());
+      ctx.report(&sig, c);
     } else if sum.notes.len() < 50 {
       sum.notes.push(format!(
         "case {} ended the worker ({}); counted, not judged by this property (C05 owns crashes)",
@@ -809,6 +842,93 @@ pub fn finish(
     started.elapsed().as_secs_f64()
   );
   exit
+}
+
+/// Re-run every case that died of a stack overflow under gdb (in parallel) and
+/// return, per case, the sorted set of crate functions found in the innermost
+/// frames of the dead stack, e.g. "cddl::validator::is_ident_string_data_type".
+/// This is the call-site part of a stack-overflow signature.
+pub fn overflow_sites(def: &'static PropDef, o: &RunOpts, crashes: &[Value]) -> BTreeMap<u64, String> {
+  let exe = std::env::current_exe().unwrap().to_string_lossy().to_string();
+  let cases: Vec<u64> = crashes
+    .iter()
+    .filter(|c| c["kind"].as_str() == Some("stack-overflow"))
+    .filter_map(|c| c["case"].as_u64())
+    .collect();
+  let work = Arc::new(Mutex::new(cases));
+  let out = Arc::new(Mutex::new(BTreeMap::new()));
+  let mut hs = vec![];
+  for _ in 0..12 {
+    let work = work.clone();
+    let out = out.clone();
+    let exe = exe.clone();
+    let (seed, tier, id) = (o.seed, o.tier, def.id);
+    hs.push(std::thread::spawn(move || loop {
+      let c = match work.lock().unwrap().pop() {
+        Some(c) => c,
+        None => break,
+      };
+      let r = Command::new("timeout")
+        .args(["120", "gdb", "-batch", "-nx", "-ex", "run", "-ex", "bt 240", "--args", &exe, "child", id])
+        .args(["--seed", &seed.to_string(), "--tier", tier.name()])
+        .args(["--from", &c.to_string(), "--to", &(c + 1).to_string(), "--step", "1", "--out", "/dev/null"])
+        .stdin(Stdio::null())
+        .stderr(Stdio::null())
+        .output();
+      let mut fns: BTreeMap<String, u32> = BTreeMap::new();
+      if let Ok(r) = r {
+        for line in String::from_utf8_lossy(&r.stdout).lines() {
+          if !line.starts_with('#') {
+            continue;
+          }
+          // "#12 0x... in cddl::validator::foo::{closure#0} () at src/..." or "#12 cddl::... () at"
+          let rest = line.splitn(2, ' ').nth(1).unwrap_or("").trim_start();
+          let rest = match rest.find(" in ") {
+            Some(p) if rest.starts_with("0x") => &rest[p + 4..],
+            _ => rest,
+          };
+          let name = rest.split(" (").next().unwrap_or("");
+          if let Some(p) = name.find("cddl") {
+            if name.starts_with("cddl") || name[..p].ends_with('<') || name[..p].ends_with(' ') {
+              let mut n = name.to_string();
+              // strip closure / impl suffix noise and generic arguments
+              while let Some(q) = n.find("::{closure") {
+                n.truncate(q);
+              }
+              if let Some(q) = n.find('<') {
+                if q > 0 && n.starts_with("cddl") {
+                  n.truncate(q);
+                }
+              }
+              // "{impl#8}" numbering shifts when impl blocks are added: normalise
+              let mut m = String::new();
+              let mut rest = n.as_str();
+              while let Some(q) = rest.find("{impl#") {
+                m.push_str(&rest[..q]);
+                m.push_str("{impl}");
+                rest = &rest[q..];
+                rest = &rest[rest.find('}').map(|e| e + 1).unwrap_or(rest.len())..];
+              }
+              m.push_str(rest);
+              if m.starts_with("cddl") {
+                *fns.entry(m).or_insert(0) += 1;
+              }
+            }
+          }
+        }
+      }
+      // only functions that recur (>= 3 times) in the innermost 240 frames belong to the runaway
+      // recursion; leaf frames that happen to be on top when the guard page is hit do not
+      let rec: Vec<String> = fns.into_iter().filter(|(_, n)| *n >= 3).map(|(k, _)| k).collect();
+      let site = if rec.is_empty() { "site-unknown".to_string() } else { rec.join("+") };
+      out.lock().unwrap().insert(c, site);
+    }));
+  }
+  for h in hs {
+    let _ = h.join();
+  }
+  let m = out.lock().unwrap().clone();
+  m
 }
 
 pub fn write_evidence(def: &PropDef, o: &RunOpts, sum: &Summary, nviol: usize, started: Instant) {
